@@ -254,7 +254,6 @@ fn random(a: &Args, tracer: &Tracer) {
     };
     let mut opts = qlib::GenOpts::all(depth);
     opts.avoid_single_should_msm = false;
-    opts.bool_fast_range = a.get("unsteer", "").to_lowercase().split(',').any(|x| x.trim() == "f34");
     let total = if fixed.is_empty() { nq } else { fixed.len() };
     for qi in 0..total {
         let mut qj = if fixed.is_empty() { qlib::gen_query(&mut rng, depth, &opts) } else { fixed[qi].clone() };
